@@ -352,6 +352,12 @@ func (rb *replayBuilder) value(t types.Type, x *sexp, depth int) string {
 			rb.imports["errors"] = "errors"
 			return rb.typeStr(t) + "(errors.New(\"replay\"))"
 		}
+		if !types.AssignableTo(dt, t) {
+			// the solver's dynamic type is not constrained to implement the static
+			// one where nothing depends on it: a nil interface stands in
+			rb.note("model gives an interface value a dynamic type that does not implement it; nil used")
+			return "(" + rb.typeStr(t) + ")(nil)"
+		}
 		if isPointerish(dt) {
 			return rb.typeStr(t) + "(" + rb.value(dt, x.list[2], depth) + ")"
 		}
@@ -626,7 +632,16 @@ func replayObligation(eng *Engine, o runOpts, ob *Obligation, path, work string)
 		writeReplayFile(o, ob, path, "inputs-not-constructible", rb.bad)
 		return false
 	}
+	if ob.Kind == "lock" && !(strings.Contains(ob.Name, ":balance:") || strings.Contains(ob.Name, ":relock#")) {
+		// lock order and guarded-field obligations speak about what another thread
+		// could do meanwhile: one sequential run of the function observes nothing
+		writeReplayFile(o, ob, path, "not-replayable", "NOT REPLAYABLE: a lock-order or guarded-field obligation is about interleavings with other threads; a single run of the function cannot exhibit it")
+		return false
+	}
 	src := rb.testSource(ct, ob, argExprs)
+	if ob.Kind == "lock" {
+		src = lockReplaySource(src)
+	}
 	confirmed, out := runReplay(eng, o, ct, src, work, sanitize(ob.Name))
 	status := "not-confirmed"
 	if confirmed {
@@ -779,6 +794,12 @@ func runReplay(eng *Engine, o runOpts, ct *Contract, src string, work, tag strin
 			failed = true
 		case strings.HasPrefix(kv, "panic="):
 			failed = true
+			if strings.Contains(src, "verifLockProbe") {
+				failed = false // a panic on the way decides nothing about the locks
+				preOK = false
+			}
+		case kv == "lock=held" || kv == "lock=blocked":
+			failed = true
 		case kv == "ghost=true":
 			// a clause evaluated an uninterpreted ghost function or an unbounded
 			// quantifier, which have no run-time observer: the run decides nothing
@@ -796,4 +817,81 @@ func truncate2(s string, n int) string {
 		return s[:n] + "\n...[truncated]"
 	}
 	return s
+}
+
+// lockReplaySource turns the generated replay test into a lock probe: the call
+// runs under a watchdog (a call that never returns has blocked on a lock it
+// holds), and afterwards every mutex reachable from the arguments must be free.
+func lockReplaySource(src string) string {
+	i := strings.Index(src, "\tpanicked := false\n\tfunc() {\n")
+	j := strings.Index(src, "\tif !panicked {")
+	if i < 0 || j < 0 {
+		return src
+	}
+	call := src[i+len("\tpanicked := false\n"):j] // func() { defer recover; call }()
+	k := strings.Index(src[j:], "\tfmt.Printf(\"VERIF-REPLAY ghost=")
+	if k < 0 {
+		return src
+	}
+	probe := "\tpanicked := false\n\tdone := make(chan struct{})\n\tgo func() {\n\t\tdefer close(done)\n" + call + "\t}()\n" +
+		"\tselect {\n\tcase <-done:\n\t\tif !panicked {\n\t\t\tfor _, a := range []interface{}{ARGS} {\n\t\t\t\tif verifLockProbe(reflect.ValueOf(a), 0) {\n\t\t\t\t\tfmt.Println(\"VERIF-REPLAY lock=held\")\n\t\t\t\t}\n\t\t\t}\n\t\t}\n" +
+		"\tcase <-time.After(3 * time.Second):\n\t\tfmt.Println(\"VERIF-REPLAY lock=blocked\")\n\t}\n"
+	// the arguments are the variables a0..an declared before the call
+	var args []string
+	for n := 0; ; n++ {
+		if !strings.Contains(src[:i], fmt.Sprintf("\tvar a%d ", n)) {
+			break
+		}
+		args = append(args, fmt.Sprintf("a%d", n))
+	}
+	probe = strings.Replace(probe, "ARGS", strings.Join(args, ", "), 1)
+	out := src[:i] + probe + src[j+k:]
+	for _, imp := range []string{"reflect", "sync", "time", "unsafe"} {
+		if !strings.Contains(out, "\t"+imp+" \""+imp+"\"\n") && !strings.Contains(out, "\t\""+imp+"\"\n") {
+			out = strings.Replace(out, "import (\n", "import (\n\t\""+imp+"\"\n", 1)
+		}
+	}
+	out += `
+// verifLockProbe reports whether a mutex reachable from v (through pointers and
+// struct fields, a few levels deep) is held.
+func verifLockProbe(v reflect.Value, depth int) bool {
+	if depth > 4 || !v.IsValid() {
+		return false
+	}
+	switch v.Kind() {
+	case reflect.Ptr, reflect.Interface:
+		if v.IsNil() {
+			return false
+		}
+		return verifLockProbe(v.Elem(), depth+1)
+	case reflect.Struct:
+		if v.CanAddr() {
+			p := unsafe.Pointer(v.UnsafeAddr())
+			switch v.Type() {
+			case reflect.TypeOf(sync.Mutex{}):
+				m := (*sync.Mutex)(p)
+				if !m.TryLock() {
+					return true
+				}
+				m.Unlock()
+				return false
+			case reflect.TypeOf(sync.RWMutex{}):
+				m := (*sync.RWMutex)(p)
+				if !m.TryLock() {
+					return true
+				}
+				m.Unlock()
+				return false
+			}
+		}
+		for i := 0; i < v.NumField(); i++ {
+			if verifLockProbe(v.Field(i), depth+1) {
+				return true
+			}
+		}
+	}
+	return false
+}
+`
+	return out
 }
